@@ -1272,6 +1272,10 @@ def build_entry(env: Env, e: dict, cfg: dict, placement: dict):
     R = AsyncRetry if is_async else Retry
     P = AsyncPolicy if is_async else Policy
     RP = AsyncRetryPolicy if is_async else RetryPolicy
+    # the budget may be handed over after construction: `policy.budget = shared` (the decorator offers no object)
+    late_budget = bool((cfg.get("budget") or {}).get("late")) and rkw is not None and api != "decorator"
+    if late_budget:
+        rkw = {**rkw, "budget": None}
 
     def attach_hooks(retry_obj):
         if att_hooks == "policy":
@@ -1285,9 +1289,13 @@ def build_entry(env: Env, e: dict, cfg: dict, placement: dict):
             obj = R(**rkw)
         attach_hooks(obj)
         target = obj
+        if late_budget:
+            obj.budget = env.budget
     elif api in ("Policy", "Policy.context", "Policy.proxy"):
         r = R(**rkw)
         attach_hooks(r)
+        if late_budget:
+            r.budget = env.budget
         if api == "Policy.proxy":
             r = _Proxy(r)  # a delegating wrapper around the retry component (tracing / recording decorators)
         target = P(retry=r, circuit_breaker=env.breaker)
@@ -1297,6 +1305,8 @@ def build_entry(env: Env, e: dict, cfg: dict, placement: dict):
         else:
             target = RP(**rkw)
         attach_hooks(target.retry)
+        if late_budget:
+            target.budget = env.budget  # through the facade
     elif api == "Policy.noretry":
         target = P(retry=None, circuit_breaker=env.breaker)
     elif api == "decorator":
